@@ -11,9 +11,15 @@ FIRST = {  # outcome of the very first confrontation (before any strengthening),
  "C18-a": "caught", "C18-b": "caught"}
 FIRST.update({'C01-c': 'caught', 'C01-d': 'missed', 'C02-c': 'missed', 'C02-d': 'missed', 'C03-c': 'missed', 'C03-d': 'missed', 'C04-c': 'caught', 'C04-d': 'missed', 'C05-c': 'caught', 'C05-d': 'caught', 'C06-c': 'caught', 'C06-d': 'caught', 'C07-c': 'caught', 'C07-d': 'caught', 'C08-c': 'caught', 'C08-d': 'caught', 'C09-c': 'caught', 'C09-d': 'caught', 'C10-c': 'missed', 'C10-d': 'caught', 'C12-c': 'missed', 'C12-d': 'missed', 'C13-c': 'missed', 'C13-d': 'caught', 'C14-c': 'missed', 'C14-d': 'missed', 'C15-c': 'caught', 'C15-d': 'missed', 'C16-c': 'missed', 'C16-d': 'missed', 'C17-c': 'missed', 'C17-d': 'missed', 'C18-c': 'caught', 'C18-d': 'caught', 'C19-c': 'missed', 'C19-d': 'caught', 'C20-c': 'caught', 'C20-d': 'caught', 'C11-c': 'missed', 'C11-d': 'missed'})
 FIRST.update({'C01-e': 'caught', 'C01-f': 'missed', 'C02-e': 'missed', 'C02-f': 'caught', 'C03-e': 'missed', 'C03-f': 'missed', 'C04-e': 'caught', 'C04-f': 'missed', 'C05-e': 'caught', 'C05-f': 'missed', 'C06-e': 'caught', 'C06-f': 'missed', 'C07-e': 'missed', 'C07-f': 'caught', 'C08-e': 'missed', 'C08-f': 'missed', 'C09-e': 'missed', 'C09-f': 'missed', 'C10-e': 'caught', 'C10-f': 'caught', 'C11-e': 'missed', 'C11-f': 'missed', 'C12-e': 'missed', 'C12-f': 'caught', 'C13-e': 'caught', 'C13-f': 'caught', 'C14-e': 'caught', 'C14-f': 'missed', 'C15-e': 'missed', 'C15-f': 'caught', 'C16-e': 'caught', 'C16-f': 'missed', 'C17-e': 'missed', 'C17-f': 'missed', 'C18-e': 'caught', 'C18-f': 'caught', 'C19-e': 'missed', 'C19-f': 'missed', 'C20-e': 'missed', 'C20-f': 'caught'})
+FIRST.update({'C01-g': 'missed', 'C01-h': 'missed', 'C02-g': 'missed', 'C02-h': 'caught', 'C03-g': 'caught', 'C03-h': 'caught', 'C04-g': 'missed', 'C04-h': 'caught', 'C05-g': 'missed', 'C05-h': 'caught', 'C07-g': 'caught', 'C07-h': 'missed', 'C08-g': 'caught', 'C08-h': 'caught', 'C09-g': 'caught', 'C09-h': 'caught', 'C10-g': 'missed', 'C10-h': 'missed', 'C11-g': 'caught', 'C11-h': 'caught', 'C12-g': 'missed', 'C12-h': 'caught', 'C13-g': 'missed', 'C13-h': 'caught', 'C14-g': 'caught', 'C14-h': 'caught', 'C15-g': 'caught', 'C15-h': 'caught', 'C16-g': 'caught', 'C16-h': 'missed', 'C17-g': 'caught', 'C17-h': 'missed', 'C18-g': 'missed', 'C18-h': 'missed', 'C19-g': 'caught', 'C19-h': 'caught', 'C20-g': 'missed', 'C20-h': 'missed'})
 TIER = {"C17-e": "thorough"}      # needs a model whose pickle exceeds 8 MiB: generated in the thorough tier only
-ALSO = {"C02-a": ["C10"], "C07-b": ["C09"], "C02-b": ["C01"], "C01-d": ["C10"], "C02-d": ["C01"], "C02-c": ["C05"], "C14-d": ["C16"]}
+ALSO = {"C02-a": ["C10"], "C07-b": ["C09"], "C02-b": ["C01"], "C01-d": ["C10"], "C02-d": ["C01"], "C02-c": ["C05"], "C14-d": ["C16"], "C01-h": ["C10"]}
 sel = sys.argv[1:]
+REPO_ARGS = []
+if "--repo" in sel:                      # bulk re-run inside a scratch worktree (see try_mutant.py)
+    i = sel.index("--repo")
+    REPO_ARGS = sel[i:i + 2]
+    del sel[i:i + 2]
 for d in sorted(glob.glob(os.path.join(V, "seeded", "*"))):
     name = os.path.basename(d)
     if sel and name not in sel:
@@ -21,7 +27,7 @@ for d in sorted(glob.glob(os.path.join(V, "seeded", "*"))):
     mp = os.path.join(d, "meta.json")
     m = json.load(open(mp))
     props = [m["breaks_property"]] + ALSO.get(name, [])
-    r = subprocess.run([os.path.join(V, "tools", "try_mutant.py"), os.path.join(d, "patch.diff")] + props + ["--tier", TIER.get(name, "quick")], cwd=V, capture_output=True, text=True)
+    r = subprocess.run([os.path.join(V, "tools", "try_mutant.py"), os.path.join(d, "patch.diff")] + props + ["--tier", TIER.get(name, "quick")] + REPO_ARGS, cwd=V, capture_output=True, text=True)
     m["tier_used"] = TIER.get(name, "quick")
     lines = r.stdout.strip().splitlines()
     m["checks_run_final"] = lines
